@@ -77,6 +77,9 @@ structure Svc where
   td : Bool                -- annotation networking.istio.io/traffic-distribution: PreferClose
   x : Bool := false        -- annotation networking.istio.io/exportTo: "~" (exported to nobody)
   sas : Bool := false      -- annotation alpha.istio.io/kubernetes-serviceaccounts: "acct1,acct2"
+  csa : Bool := false      -- annotation alpha.istio.io/canonical-serviceaccounts
+  eip : Bool := false      -- spec.externalIPs
+  nl : Bool := false       -- spec.internalTrafficPolicy: Local
   deriving DecidableEq, Repr, Inhabited
 
 structure Ep where
@@ -516,6 +519,15 @@ def podEvent (s : Ctl) (old : Option Pod) (p : Pod) (k : PodEvKind) : Ctl × Lis
         (r.1, w.2 ++ r.2)
     | .del => ((deleteIP s ip p.key).1, w.2)
 
+/-- `queueEndpointEventsForPod` (fix ab6ec60): a pod update that changes the node or the service account replays the
+    EndpointSlices of the pod's namespace that have an endpoint for the pod (they took node, locality and identity
+    from the pod as it was when they were handled) -/
+def idReplays (s : Ctl) (o p : Pod) : List Ev :=
+  if o.node ≠ p.node ∨ o.sa ≠ p.sa then
+    (s.slices.filter (fun sl => sl.ns = p.ns ∧ sl.eps.any (fun e => e.target = some (p.ns, p.name)))).map
+      (fun sl => Ev.replay sl.key)
+  else []
+
 /-! ### the queue -/
 
 /-- `ConvertService` with the namespace annotations read from the namespace store at handler time:
@@ -554,7 +566,7 @@ def handle (s : Ctl) : Ev → Ctl × List Ev
   | .podUpd o v =>
     match findPod s.pods v.ns v.name with
     | none => (s, [])
-    | some cur => podEvent s (some o) cur .upd
+    | some cur => ((podEvent s (some o) cur .upd).1, idReplays s o cur ++ (podEvent s (some o) cur .upd).2)
   | .podDel v => podEvent s none v .del
   | .slAdd v =>
     match findSlice s.slices v.ns v.name with
